@@ -230,15 +230,14 @@ func (w *world) drVisibleDoc(d *drSpec, ns string) bool {
 	if d.selector != nil {
 		return d.ns == ns
 	}
+	// declared exportTo, or meshConfig.defaultDestinationRuleExportTo when the rule declares none
+	// ("same syntax as defaultServiceExportTo"; unset or empty: "*")
 	e := d.exportTo
 	if len(e) == 0 {
-		// the mesh default is honoured for "." only, everything else means public
-		for _, x := range w.mesh.defDR {
-			if x == "." && !w.mesh.nilDR {
-				return d.ns == ns
-			}
+		e = w.mesh.defDR
+		if w.mesh.nilDR || len(e) == 0 {
+			e = []string{"*"}
 		}
-		return true
 	}
 	for _, x := range e {
 		if x == "*" || x == ns || (x == "." && d.ns == ns) {
@@ -246,6 +245,17 @@ func (w *world) drVisibleDoc(d *drSpec, ns string) bool {
 		}
 	}
 	return false
+}
+
+// drNotExportedClause names the cause of a DestinationRule reaching a namespace it is not exported to.
+func (w *world) drNotExportedClause(d *drSpec) string {
+	switch {
+	case !w.enhanced:
+		return "dr-not-exported:legacy-merge-flag-off"
+	case len(d.exportTo) == 0 && d.selector == nil:
+		return "dr-not-exported:mesh-default-namespace-list"
+	}
+	return "dr-not-exported"
 }
 
 // aliasVisibleDoc: the alias (namespace, hostname) is backed by a service of that key that is
@@ -586,17 +596,24 @@ func (w *world) oracleOneScope(sc *model.SidecarScope, ns string, gateway bool, 
 			}
 		}
 	}
-	if w.enhanced {
-		for _, cs := range model.VerifC07ScopeDestinationRules(sc) {
-			for _, c := range cs {
-				for _, f := range model.VerifC07From(c) {
-					d := w.drByKey(f.Namespace + "/" + f.Name)
-					if d == nil {
-						return "dr-unknown " + f.Name
+	for _, cs := range model.VerifC07ScopeDestinationRules(sc) {
+		for _, c := range cs {
+			for _, f := range model.VerifC07From(c) {
+				d := w.drByKey(f.Namespace + "/" + f.Name)
+				if d == nil {
+					return "dr-unknown " + f.Name
+				}
+				if !w.drVisibleDoc(d, ns) {
+					v := w.drNotExportedClause(d) + " " + d.ns + "/" + d.name + " " + ns
+					if !w.enhanced {
+						// the legacy merge (ENABLE_ENHANCED_DESTINATIONRULE_MERGE=false) is a listed known
+						// finding: report it only if nothing else is wrong with the case
+						if w.deferred == "" {
+							w.deferred = v
+						}
+						continue
 					}
-					if !w.drVisibleDoc(d, ns) {
-						return "dr-not-exported " + d.ns + "/" + d.name + " " + ns
-					}
+					return v
 				}
 			}
 		}
